@@ -262,6 +262,7 @@ pub fn run(ctx: &mut Ctx) -> Result<(), Violation> {
     ctx.rule = "model-based: two (random stage: three) BDDSets sharing one environment against BTreeSet<usize> references. Exhaustive: for bits b in {1,2} breadth-first over EVERY reachable pair of reference states (4x4 resp. 16x16), \
                 the implementation state rebuilt by replaying a shortest operation path, then every next operation (insert(x) on either set, union/intersect/complement with operands (A,B),(B,A),(A,A),(B,B), empty, universe); \
                 after every operation the last query made before it is repeated first, then all membership queries of all sets are asked twice (rotating start, alternating direction) and compared. Random: histories of <= 40 operations for b <= 3 and three sets, including replacing a set by from_element(x). \
+                Wide stage: element widths b in {4, 8, 9, 16, 17, 31, 32, 33, 48, 63, 64} with elements at the ends of the range and around byte / word boundaries; reference sets are finite or co-finite; queries = every mentioned element, its one-bit neighbours, its mirror image, 0 and 2^b - 1, after every operation. \
                 Non-trivial = history of >= 2 operations containing a binary set operation; distinct by operation list."
         .to_string();
     ctx.assume("elements are b-bit integers (0..2^b); all sets of a history share one environment");
@@ -354,10 +355,225 @@ pub fn run(ctx: &mut Ctx) -> Result<(), Violation> {
         check_history(bits, nsets, &h)
     });
     ctx.stage("random-histories-3-sets", false, r)?;
+
+    // element widths up to the machine word
+    let cases = ctx.tier.pick(1_500, 300_000);
+    let r = par_random(ctx, "random-wide", cases, 260, |tape, st| {
+        let mut t = Tape::new(tape);
+        let bits = [4usize, 8, 9, 16, 17, 31, 32, 33, 48, 63, 64][t.choose(11)];
+        let nsets = 3;
+        let n = 1 + t.choose(14);
+        let mut h = Vec::new();
+        for _ in 0..n {
+            if t.exhausted() {
+                break;
+            }
+            let s = t.choose(nsets);
+            let o = t.choose(nsets);
+            h.push(match t.choose(10) {
+                0..=3 => SetOp::Insert(s, gen_wide_elem(&mut t, bits)),
+                4 => SetOp::Union(s, o),
+                5 => SetOp::Intersect(s, o),
+                6 | 7 => SetOp::Complement(s, o),
+                8 => match t.choose(3) {
+                    0 => SetOp::Empty(s),
+                    1 => SetOp::Universe(s),
+                    _ => SetOp::Singleton(s, gen_wide_elem(&mut t, bits)),
+                },
+                _ => SetOp::Universe(s),
+            });
+        }
+        st.eval();
+        st.class(&format!("wide:b={}", bits));
+        for op in &h {
+            st.class(op.name());
+        }
+        let j = wide_json(bits, nsets, &h);
+        if h.len() >= 2 && h.iter().any(|o| matches!(o, SetOp::Union(..) | SetOp::Intersect(..) | SetOp::Complement(..))) {
+            if st.nontrivial(fnv_str(&j.to_string())) {
+                st.nt_sample(|| j.clone());
+            }
+        }
+        check_history_wide(bits, nsets, &h)
+    });
+    ctx.stage("random-histories-wide-elements", false, r)?;
     Ok(())
 }
 
+
+// ---------------------------------------------------------------- wide elements (b up to 64)
+
+/// finite or co-finite subset of the b-bit integers: the family insert / union / intersect /
+/// difference / empty / universe stay inside
+#[derive(Clone, Debug, Default)]
+struct Fc {
+    elems: BTreeSet<usize>,
+    co: bool,
+}
+
+impl Fc {
+    fn contains(&self, x: usize) -> bool {
+        self.elems.contains(&x) != self.co
+    }
+    fn insert(&mut self, x: usize) {
+        if self.co {
+            self.elems.remove(&x);
+        } else {
+            self.elems.insert(x);
+        }
+    }
+    fn not(&self) -> Fc {
+        Fc { elems: self.elems.clone(), co: !self.co }
+    }
+    fn intersect(&self, o: &Fc) -> Fc {
+        match (self.co, o.co) {
+            (false, false) => Fc { elems: self.elems.intersection(&o.elems).copied().collect(), co: false },
+            (true, true) => Fc { elems: self.elems.union(&o.elems).copied().collect(), co: true },
+            (false, true) => Fc { elems: self.elems.difference(&o.elems).copied().collect(), co: false },
+            (true, false) => Fc { elems: o.elems.difference(&self.elems).copied().collect(), co: false },
+        }
+    }
+    fn union(&self, o: &Fc) -> Fc {
+        self.not().intersect(&o.not()).not()
+    }
+}
+
+fn wide_json(bits: usize, nsets: usize, ops: &[SetOp]) -> Value {
+    json!({"kind": "set-history-wide", "bits": bits, "sets": nsets, "ops": ops.iter().map(|o| o.to_json()).collect::<Vec<_>>()})
+}
+
+/// The same history check for element widths up to 64 bits: the reference sets are finite /
+/// co-finite, the membership queries are the elements the history mentions, their neighbours
+/// (one bit flipped: lowest, highest, each byte boundary), 0 and 2^b - 1.
+pub fn check_history_wide(bits: usize, nsets: usize, ops: &[SetOp]) -> Check {
+    let cj = wide_json(bits, nsets, ops);
+    let v = |m: String| Violation::new(m, cj.clone());
+    let max: usize = if bits >= 64 { usize::MAX } else { (1usize << bits) - 1 };
+    let mut probes: BTreeSet<usize> = BTreeSet::new();
+    probes.insert(0);
+    probes.insert(max);
+    for op in ops {
+        if let SetOp::Insert(_, x) | SetOp::Singleton(_, x) = op {
+            probes.insert(*x);
+            for k in [0usize, 8, 31, 32, 63] {
+                if k < bits {
+                    probes.insert(*x ^ (1usize << k));
+                }
+            }
+            probes.insert(*x ^ (1usize << (bits - 1)));
+            probes.insert(max - *x);
+        }
+    }
+    let probes: Vec<usize> = probes.into_iter().collect();
+    guarded(&cj.clone(), || {
+        let env = Rc::new(BDDEnv::<usize>::new());
+        let mut imp: Vec<BDDSet> = (0..nsets).map(|_| BDDSet::with_env(bits, &env)).collect();
+        let mut reference: Vec<Fc> = vec![Fc::default(); nsets];
+        let ask = |imp: &Vec<BDDSet>, reference: &Vec<Fc>, after: &str, rev: bool| -> Check {
+            for s in 0..imp.len() {
+                for i in 0..probes.len() {
+                    let x = if rev { probes[probes.len() - 1 - i] } else { probes[i] };
+                    let got = imp[s].contains(x);
+                    let want = reference[s].contains(x);
+                    if got != want {
+                        return Err(v(format!(
+                            "after {}: set {} contains({:#x}) = {} but the reference ({} {:x?}) says {}",
+                            after,
+                            s,
+                            x,
+                            got,
+                            if reference[s].co { "everything except" } else { "exactly" },
+                            reference[s].elems,
+                            want
+                        )));
+                    }
+                }
+            }
+            Ok(())
+        };
+        for (i, op) in ops.iter().enumerate() {
+            let what = format!("step {} {}", i, op.to_json());
+            match op {
+                SetOp::Insert(s, x) => {
+                    imp[*s].insert(*x);
+                    reference[*s].insert(*x);
+                }
+                SetOp::Union(a, b) => {
+                    imp[*a].union(&imp[*b]);
+                    reference[*a] = reference[*a].union(&reference[*b]);
+                }
+                SetOp::Intersect(a, b) => {
+                    imp[*a].intersect(&imp[*b]);
+                    reference[*a] = reference[*a].intersect(&reference[*b]);
+                }
+                SetOp::Complement(a, b) => {
+                    imp[*a].complement(&imp[*b]);
+                    reference[*a] = reference[*a].intersect(&reference[*b].not());
+                }
+                SetOp::Empty(s) => {
+                    imp[*s].empty();
+                    reference[*s] = Fc::default();
+                }
+                SetOp::Universe(s) => {
+                    imp[*s].universe();
+                    reference[*s] = Fc { elems: BTreeSet::new(), co: true };
+                }
+                SetOp::Query(_) => {}
+                SetOp::Singleton(s, x) => {
+                    imp[*s] = BDDSet::from_element(*x, bits, &env);
+                    reference[*s] = Fc::default();
+                    reference[*s].insert(*x);
+                }
+            }
+            ask(&imp, &reference, &what, i % 2 == 1)?;
+        }
+        Ok(())
+    })
+}
+
+fn gen_wide_elem(t: &mut Tape, bits: usize) -> usize {
+    let max: usize = if bits >= 64 { usize::MAX } else { (1usize << bits) - 1 };
+    let mut x: usize = 0;
+    match t.choose(5) {
+        0 => x = t.choose(4),
+        1 => x = max - t.choose(4),
+        2 => x = (1usize << (bits - 1)) ^ t.choose(4),
+        3 => {
+            // one bit around a byte / word boundary plus noise
+            let k = [7usize, 8, 15, 16, 31, 32, 33, 47, 62, 63][t.choose(10)].min(bits - 1);
+            x = (1usize << k) | t.choose(3);
+        }
+        _ => {
+            for _ in 0..8 {
+                x = (x << 8) | t.byte() as usize;
+            }
+        }
+    }
+    x & max
+}
+
 pub fn replay(case: &Value) -> Check {
+    if case["kind"].as_str() == Some("set-history-wide") {
+        let bits = case["bits"].as_u64().unwrap_or(0) as usize;
+        let nsets = case["sets"].as_u64().unwrap_or(0) as usize;
+        let ops: Option<Vec<SetOp>> = case["ops"].as_array().map(|a| a.iter().filter_map(SetOp::from_json).collect());
+        return match ops {
+            Some(o) if (1..=64).contains(&bits) && (1..=4).contains(&nsets) => {
+                let max: usize = if bits >= 64 { usize::MAX } else { (1usize << bits) - 1 };
+                let ok = o.iter().all(|op| match op {
+                    SetOp::Insert(s, x) | SetOp::Singleton(s, x) => *s < nsets && *x <= max,
+                    SetOp::Union(a, b) | SetOp::Intersect(a, b) | SetOp::Complement(a, b) => *a < nsets && *b < nsets,
+                    SetOp::Empty(s) | SetOp::Universe(s) | SetOp::Query(s) => *s < nsets,
+                });
+                if ok {
+                    check_history_wide(bits, nsets, &o)
+                } else {
+                    Err(Violation::new("unreadable replay case", case.clone()))
+                }
+            }
+            _ => Err(Violation::new("unreadable replay case", case.clone())),
+        };
+    }
     let bits = case["bits"].as_u64().unwrap_or(0) as usize;
     let nsets = case["sets"].as_u64().unwrap_or(0) as usize;
     let ops: Option<Vec<SetOp>> = case["ops"].as_array().map(|a| a.iter().filter_map(SetOp::from_json).collect());
